@@ -4,7 +4,8 @@ are zero, `push_u8` and `push_bits` (any width ≤ 64, any alignment) append exa
 most significant first, keep the invariant, never trap and never resize — proved by bit-level
 (`Nat.testBit`) reasoning through the shifts, masks, `|=` and `+=` of the Rust code.
 -/
-import FastQr.Props.C06
+import FastQr.Proofs.C06Tables
+import FastQr.Model.Compact
 import FastQr.Proofs.ChkLawful
 
 namespace FastQr.Proofs.CompactSound
